@@ -630,6 +630,30 @@ func c01(r *Report) {
 	})
 
 	r.Guard("C01.R5", "exchanges on one connection are served sequentially", func() {
+		// every exchange runs under a freshly armed deadline: no path from the top of the
+		// connection loop to the exchange avoids conn.SetDeadline (requests already in the
+		// read buffer still need the time to write their responses)
+		{
+			gl := G(loop)
+			for _, hc := range plainCalls(loop, nHandle) {
+				if !inLoop(hc.Block()) {
+					continue
+				}
+				isSD := func(i ssa.Instruction) bool {
+					c, ok := i.(ssa.CallInstruction)
+					return ok && c.Common().IsInvoke() && c.Common().Method.Name() == "SetDeadline"
+				}
+				// from the call round the loop back to itself, and from the entry to it
+				starts := []ssa.Instruction{gl.Entry()}
+				for _, nx := range gl.Succs(hc) {
+					starts = append(starts, nx)
+				}
+				p := gl.PathTo(starts, true, isSD, func(i ssa.Instruction) bool { return i == ssa.Instruction(hc) })
+				r.Paths++
+				r.Decide("path", "(*M.Proxy).handleLoop: the connection deadline is re-armed before every exchange", p == nil, "SetDeadline lies on every path to the exchange, in every iteration", "an exchange can start without the connection deadline having been re-armed (e.g. when the next request is already buffered): a pipelined burst outlasting the old deadline has its later responses cut off", hc.Pos())
+			}
+		}
+
 		for _, c := range w.staticCallers(handle) {
 			f := c.Parent()
 			_, isGo := c.(*ssa.Go)
